@@ -311,7 +311,14 @@ func TableSum(n int) []byte {
 	return b
 }
 
+// realTables: the abstract number of a REAL table (one that `wrgl commit --txid` ingested from the CSV of
+// abstract table n in a CLI-mode world)
+var realTables = map[string]int{}
+
 func TableNum(b []byte) int {
+	if n, ok := realTables[string(b)]; ok {
+		return n
+	}
 	if len(b) != 16 || b[0] != 0x7b || b[15] != 0xA5 {
 		return -1
 	}
@@ -343,12 +350,85 @@ func (w *World) Plain(branch string, n int, msg string) ([]byte, error) {
 // Stage is `wrgl commit --txid`: a commit object on top of the current head, named
 // by the transaction ref only.
 func (w *World) Stage(id uuid.UUID, branch string, n int, msg string) ([]byte, error) {
+	if w.CLI() {
+		return w.stageCLI(id, branch, n, msg)
+	}
 	old, _ := ref.GetHead(w.RS, branch)
 	sum, _, err := w.newCommit(n, old, msg)
 	if err != nil {
 		return nil, err
 	}
 	return sum, ref.SaveTransactionRef(w.RS, id, branch, sum)
+}
+
+// StageDefect: the real `wrgl commit --txid` did something else than staging.
+type StageDefect struct{ What string }
+
+func (e *StageDefect) Error() string { return e.What }
+
+// stageCLI stages abstract table n with the real command, in one of its two forms: with the CSV file and key
+// given on the command line, or declared in the branch configuration (`wrgl commit BRANCH MESSAGE --txid`).
+// The second form commits only when the file differs from the head's table, so it is used only then.
+func (w *World) stageCLI(id uuid.UUID, branch string, n int, msg string) ([]byte, error) {
+	old, _ := ref.GetHead(w.RS, branch)
+	headTable := -1
+	if old != nil {
+		if c, err := objects.GetCommit(w.DB, old); err == nil {
+			headTable = TableNum(c.Table)
+		}
+	}
+	w.closeFn()
+	w.closeFn = nil
+	fp, err := w.repo.WriteFile(fmt.Sprintf("table-%d.csv", n), []byte(fmt.Sprintf("a,b\n1,%d\n", n)))
+	if err != nil {
+		return nil, err
+	}
+	var out string
+	if (len(msg)+n+len(branch))%2 == 0 && headTable != n {
+		if out, err = w.repo.Run(nil, "branch", "config", branch, "--set-file", fp, "--set-primary-key", "a"); err == nil {
+			out, err = w.repo.Run(nil, "commit", branch, msg, "--txid", id.String(), "-n", "1")
+		}
+	} else {
+		out, err = w.repo.Run(nil, "commit", branch, fp, msg, "-p", "a", "--txid", id.String(), "-n", "1")
+	}
+	if oerr := w.open(); oerr != nil {
+		return nil, fmt.Errorf("reopen: %v", oerr)
+	}
+	if err != nil {
+		return nil, fmt.Errorf("wrgl commit --txid: %v %s", err, out)
+	}
+	m, err := ref.ListTransactionRefs(w.RS, id)
+	if err != nil {
+		return nil, err
+	}
+	sum := m[branch]
+	if sum != nil {
+		if c, err := objects.GetCommit(w.DB, sum); err == nil {
+			if _, ok := realTables[string(c.Table)]; !ok && TableNum(c.Table) < 0 {
+				realTables[string(c.Table)] = n
+			}
+		}
+	}
+	now, _ := ref.GetHead(w.RS, branch)
+	switch {
+	case !sameSum(now, old):
+		// (which table the moved head carries is left to the projection)
+		if c, err := objects.GetCommit(w.DB, now); err == nil {
+			if _, ok := realTables[string(c.Table)]; !ok && TableNum(c.Table) < 0 {
+				realTables[string(c.Table)] = n
+			}
+		}
+		return sum, &StageDefect{"`wrgl commit --txid` moved the branch itself"}
+	case sum == nil:
+		return nil, &StageDefect{"`wrgl commit --txid` staged nothing: " + out}
+	}
+	return sum, nil
+}
+
+// cacheCommit: the temporary commit the commit cache of `wrgl commit BRANCH MESSAGE` keeps under heads/BRANCH-tmp
+// (its message is the name of the file); no part of what transactions are about
+func cacheCommit(c *objects.Commit) bool {
+	return len(c.Parents) == 0 && strings.HasPrefix(c.Message, "table-") && strings.HasSuffix(c.Message, ".csv")
 }
 
 func (w *World) Status(id uuid.UUID) string {
@@ -405,6 +485,9 @@ func (w *World) allCommits() (map[string]*objects.Commit, error) {
 		c, err := objects.GetCommit(w.DB, k)
 		if err != nil {
 			return nil, fmt.Errorf("commit %x unreadable: %v", k, err)
+		}
+		if cacheCommit(c) {
+			continue
 		}
 		m[string(k)] = c
 	}
